@@ -3,7 +3,6 @@ module verif/sim
 go 1.26.8
 
 require (
-	github.com/golang/snappy v0.0.1
 	github.com/lianxiangcloud/linkchain v0.0.0
 	github.com/syndtr/goleveldb v1.0.0
 )
@@ -26,6 +25,7 @@ require (
 	github.com/go-kit/kit v0.8.0 // indirect
 	github.com/go-stack/stack v1.8.0 // indirect
 	github.com/golang/protobuf v1.3.2 // indirect
+	github.com/golang/snappy v0.0.1 // indirect
 	github.com/google/uuid v1.0.0 // indirect
 	github.com/hashicorp/golang-lru v0.5.1 // indirect
 	github.com/matttproud/golang_protobuf_extensions v1.0.1 // indirect
@@ -54,6 +54,6 @@ require (
 replace (
 	github.com/NebulousLabs/go-upnp => github.com/lianxiangcloud/go-upnp v0.0.0-20190905032046-65768e0b268c
 	github.com/go-interpreter/wagon => github.com/xunleichain/wagon v0.5.3
-	github.com/lianxiangcloud/linkchain => /repo
+	github.com/lianxiangcloud/linkchain => /tmp/wt-c04
 	gopkg.in/sourcemap.v1 => github.com/go-sourcemap/sourcemap v1.0.5
 )
